@@ -47,8 +47,26 @@ Definition strict_check (now atts valid_until : Z) : bool :=
     let vu' := if vu >? seven then seven else vu in
     negb (ts_time atts >? vu').
 
+(* StrictValiditySignatureCheck as repaired for finding F62: the uint64 millisecond values are
+   compared as they are, the cap being AsTimestamp(now + 7 days) *)
+Definition strict_check_unsigned (now atts valid_until : Z) : bool :=
+  if valid_until =? public_key_not_valid then false
+  else
+    let limit := as_timestamp (now + seven_days_ns) in
+    let limit' := if valid_until <? limit then valid_until else limit in
+    atts <=? limit'.
+
+(* which of the two the source tree has: false = through Timestamp.Time() (int64), true = unsigned.
+   Tied to the source by Gen/GenC12.v (C12_constants_match_source): when the repair of F62 is merged
+   that proof breaks and this constant is to be flipped; every theorem is stated for both values. *)
+Definition strict_unsigned : bool := false.
+
 Definition validity_check (rl : rule) (now atts valid_until : Z) : bool :=
-  match rl with Strict => strict_check now atts valid_until | Lenient => true end.
+  match rl with
+  | Strict => if strict_unsigned then strict_check_unsigned now atts valid_until
+              else strict_check now atts valid_until
+  | Lenient => true
+  end.
 
 Record pkres := { pk_key : bytes; pk_expired : Z; pk_valid_until : Z }.
 
@@ -102,6 +120,11 @@ Fixpoint alast {V} (k : skey) (l : kmap V) : option V :=
 Definition obj_or_null (j : json) : bool :=
   match j with JObj _ => true | JNull => true | _ => false end.
 
+(* which decoding the source tree has: false = the whole signatures object is decoded (every entry
+   must be an object or null), true = only the entry of the named entity is (repair made for C06);
+   tied to the source by Gen/GenC12.v (C12_constants_match_source) *)
+Definition signatures_per_entry : bool := false.
+
 Definition list_key_ids (server msg : bytes) : option (list bytes) :=
   match parse_json msg with
   | None => None
@@ -111,10 +134,12 @@ Definition list_key_ids (server msg : bytes) : option (list bytes) :=
       | None => Some []
       | Some JNull => Some []
       | Some (JObj sigs) =>
-          if forallb (fun kv => obj_or_null (snd kv)) sigs then
+          if signatures_per_entry || forallb (fun kv => obj_or_null (snd kv)) sigs then
             match assoc_last server sigs with
             | Some (JObj ks) => Some (map fst ks)
-            | _ => Some []
+            | Some JNull => Some []
+            | None => Some []
+            | Some _ => None
             end
           else None
       | Some _ => None
